@@ -93,6 +93,7 @@ type Engine struct {
 	inlineOK  map[*ssa.Function]int
 	srcCache  map[string][]byte
 	CurProp   string
+	boxed     []types.Type
 	globCache map[*ssa.Function]map[*ssa.Global]bool
 }
 
